@@ -54,6 +54,11 @@ def workload(seed, mode="plain", nops=10, maint=True, jcomp="lz4", manual=False,
         else:
             L.append("put %s %s %s" % (h, r.choice(KEYS), val(r)))
         L.append("dump")
+        # a persist right behind a write (every write kind, clear most of all: it is the rarest) — the write is then the
+        # last thing in the journal writer's buffer when persist runs
+        if persists and L[-2].split()[0] in ("put", "del", "batch", "clear", "tx") and r.random() < (0.7 if L[-2].startswith("clear") else 0.15):
+            L.append("persist %s" % r.choice(["buffer", "data", "all"]))
+            L.append("dump")
     L.append("exit 0")
     return "\n".join(L) + "\n"
 
